@@ -298,6 +298,49 @@ func C06(c *core.Ctx) {
 			return append(append([]string{"portfolio", "returns", "-v", "CHF", "--days"}, [][]string{{}, {"--account", "Card"}, {"--account", "Depot"}}[k%3]...), "r.knut")
 		})
 	}
+	// a deep include graph (4-6 levels) whose leaves all include a file that sits beside them: the leaves and the
+	// shared file are loaded by sibling goroutines
+	for k := 0; k < c.Pick(3, 12); k++ {
+		k := k
+		for _, cmd := range [][]string{{"print"}, {"balance", "--color=false", "-v", "CHF", "--months"}, {"check"}} {
+			cmd := cmd
+			add("journal", fmt.Sprintf("deep include graph with a shared sibling %d, %s", k, cmd[0]), func(dir string) []string {
+				depth := 2 + k%3 // directories below the root
+				leafDir, rel := dir, ""
+				for d := 0; d < depth; d++ {
+					rel = filepath.Join(rel, fmt.Sprintf("l%d", d))
+				}
+				leafDir = filepath.Join(dir, rel)
+				os.MkdirAll(leafDir, 0o755)
+				// root and one index file per level
+				cur := dir
+				os.WriteFile(filepath.Join(dir, "main.knut"), []byte("2020-01-01 open Assets:Bank\n2020-01-01 open Assets:Depot\n2020-01-01 open Equity:Equity\n\ninclude \"l0/index.knut\"\n"), 0o644)
+				for d := 0; d < depth; d++ {
+					cur = filepath.Join(cur, fmt.Sprintf("l%d", d))
+					var b strings.Builder
+					if d+1 < depth {
+						fmt.Fprintf(&b, "include \"l%d/index.knut\"\n", d+1)
+					} else {
+						for m := 1; m <= 3+k%2; m++ {
+							fmt.Fprintf(&b, "include \"m%d.knut\"\n", m)
+						}
+						b.WriteString("include \"prices.knut\"\n")
+					}
+					os.WriteFile(filepath.Join(cur, "index.knut"), []byte(b.String()), 0o644)
+				}
+				os.WriteFile(filepath.Join(leafDir, "prices.knut"), []byte("2020-01-01 price USD 0.9 CHF\n2020-02-01 price USD 0.95 CHF\n"), 0o644)
+				for m := 1; m <= 3+k%2; m++ {
+					var b strings.Builder
+					b.WriteString("include \"prices.knut\"\n\n")
+					for t := 0; t < 40; t++ {
+						fmt.Fprintf(&b, "2020-%02d-%02d \"t%d\"\nEquity:Equity Assets:Bank %d CHF\n\n2020-%02d-%02d \"u%d\"\nEquity:Equity Assets:Depot %d USD\n\n", m, 1+t%27, t, 1+t, m, 1+t%27, t, 2+t)
+					}
+					os.WriteFile(filepath.Join(leafDir, fmt.Sprintf("m%d.knut", m)), []byte(b.String()), 0o644)
+				}
+				return append(append([]string{}, cmd...), "main.knut")
+			})
+		}
+	}
 	// infer with tied candidates
 	for k := 0; k < c.Pick(6, 40); k++ {
 		k := k
